@@ -929,24 +929,41 @@ func TestKF_qr_step_offdiagonal_blocks(t *testing.T) {
 }
 
 func TestKF_eigensystem_permutation(t *testing.T) {
-	// upper triangular with eigenvalues 1, 3, 2 in Schur order: sorting by magnitude is a 3-cycle-free swap... use 4 values
-	a := NewDenseFloat64Matrix([]float64{
-		1, 0.5, 0.25, 0.125,
-		0, 4, 0.5, 0.25,
-		0, 0, 2, 0.5,
-		0, 0, 0, 3}, 4, 4)
-	ev, evec, err := eigensystem.Run(a, qrAlgorithm.Epsilon{Value: 1.11e-16})
+	// upper triangular matrices with the eigenvalues 1..4 in every diagonal order
 	bad := ""
-	if err != nil {
-		bad = err.Error()
-	} else {
+	perms := [][]float64{}
+	var rec func(cur []float64, rest []float64)
+	rec = func(cur, rest []float64) {
+		if len(rest) == 0 {
+			perms = append(perms, append([]float64{}, cur...))
+			return
+		}
+		for k := range rest {
+			r2 := append(append([]float64{}, rest[:k]...), rest[k+1:]...)
+			rec(append(cur, rest[k]), r2)
+		}
+	}
+	rec(nil, []float64{1, 2, 3, 4})
+	for _, d := range perms {
+		a := NewDenseFloat64Matrix([]float64{
+			d[0], 0.5, 0.25, 0.125,
+			0, d[1], 0.5, 0.25,
+			0, 0, d[2], 0.5,
+			0, 0, 0, d[3]}, 4, 4)
+		var ev Vector
+		var evec Matrix
+		var err error
+		if p, to := guarded(func() { ev, evec, err = eigensystem.Run(a) }); p != "" || to || err != nil {
+			bad = fmt.Sprintf("diag %v: panic=%q timeout=%v err=%v", d, p, to, err)
+			continue
+		}
 		am, vm, evs := model.FromMatrix(a), model.FromMatrix(evec), model.FromVector(ev)
 		for i, l := range evs {
 			col := []float64{vm[0][i], vm[1][i], vm[2][i], vm[3][i]}
 			av := am.MulVec(col)
 			for r := range av {
 				if !(math.Abs(av[r]-l*col[r]) < 1e-8) {
-					bad = fmt.Sprintf("eigenvalue %v is not aligned with column %d (%v)", l, i, col)
+					bad = fmt.Sprintf("diag %v: eigenvalue %v is not aligned with column %d (%v)", d, l, i, col)
 				}
 			}
 		}
